@@ -1,7 +1,6 @@
 package main
 
 import (
-	"encoding/json"
 	"fmt"
 	"math/rand"
 	"os"
@@ -27,7 +26,7 @@ func decodeAll(b []byte, zero any, dir string) []string {
 			return
 		}
 		if v != nil {
-			if p, _ := guard(func() { _ = fmt.Sprintf("%v", v); json.Marshal(v) }); p {
+			if r := render(v, nil); r["string"] != "ok" || r["json"] != "ok" {
 				bad = append(bad, name+"/render")
 			}
 		}
